@@ -16,7 +16,7 @@ CHECKS = {
         note="Containment oracle uses os.path.realpath/commonpath; availability only required for symlink-free, UTF-8 named files (literal spelling only for pchar names).",
         tech="runtime monitoring: sentinel-token oracle on responses + audit-hook trail of open/listdir (L0 handler calls, L3 live sample)"),
     "C03": dict(cat="exploration",
-        text="Held on the explored histories: TOFUDatabase histories (exhaustive to depth 4/5) and GeminiClient get/upload/redirect histories against scripted TLS peers whose certificates are swapped (RSA/EC/Ed25519 and DER-tampered certificates the X.509 parser rejects), exhaustive to depth 3/4 over a 12-operation alphabet plus random long histories; after every step outcome and known_hosts are compared with an abstract pin map. Histories include replace-mode imports, export->import restores and calls inside `async with`; a separate scenario keeps 2-4 calls in flight towards an unpinned host whose peer rotates its certificate per connection. Pool certificates share subject, issuer and serial number (different keys); peers that answer before the request (end of handshake + response + close_notify in one segment) are included.",
+        text="Held on the explored histories: TOFUDatabase histories (exhaustive to depth 4/5) and GeminiClient get/upload/redirect histories against scripted TLS peers whose certificates are swapped (RSA/EC/Ed25519 and DER-tampered certificates the X.509 parser rejects), over a 16-operation alphabet (quick: a fifth of the depth-3 histories; thorough: all of depth 3 and a third of depth 4) plus random long histories; after every step outcome and known_hosts are compared with an abstract pin map. Histories include replace-mode imports, export->import restores and calls inside `async with`; a separate scenario keeps 2-4 calls in flight towards an unpinned host whose peer rotates its certificate per connection. Pool certificates share subject, issuer and serial number (different keys); peers that answer before the request (end of handshake + response + close_notify in one segment) are included.",
         note="Pin key = (lower-cased host, port) as derived from the URL; TOFU-off runs only check that the store stays untouched.",
         tech="runtime monitoring: step-by-step comparison of real outcomes and the sqlite table with a reference pin-map model over live TLS histories"),
     "C04": dict(cat="exploration",
